@@ -63,6 +63,36 @@ func (c gcPointCodec) Write(w *avro.WriteBuf, p unsafe.Pointer) {
 	c.Int64Codec.Write(w, unsafe.Pointer(&(*GCPoint)(p).V))
 }
 
+// GCPtr is a custom type carried as an Avro long whose Go value holds a pointer:
+// wherever the library allocates room for it (fields, slice elements, map values)
+// that memory must be typed, or the pointee is invisible to the collector.
+type GCPtr struct{ P *int64 }
+
+type gcPtrCodec struct{ avro.Int64Codec }
+
+func (c gcPtrCodec) Read(r *avro.ReadBuf, p unsafe.Pointer) error {
+	x := new(int64)
+	if err := c.Int64Codec.Read(r, unsafe.Pointer(x)); err != nil {
+		return err
+	}
+	(*GCPtr)(p).P = x
+	gcChurn()
+	return nil
+}
+
+func (c gcPtrCodec) Write(w *avro.WriteBuf, p unsafe.Pointer) {
+	var v int64
+	if q := (*GCPtr)(p).P; q != nil {
+		v = *q
+	}
+	c.Int64Codec.Write(w, unsafe.Pointer(&v))
+}
+
+var gcPtrType = reflect.TypeOf(GCPtr{})
+
+func (c gcPtrCodec) New(r *avro.ReadBuf) unsafe.Pointer { return r.Alloc(gcPtrType) }
+func (c gcPtrCodec) Omit(p unsafe.Pointer) bool         { return false }
+
 var gcPointType = reflect.TypeOf(GCPoint{})
 
 func (c gcPointCodec) New(r *avro.ReadBuf) unsafe.Pointer { return r.Alloc(gcPointType) }
@@ -80,6 +110,23 @@ func init() {
 		Type: gcPointType, Schema: ref.Prim("long"), Base: "int64",
 		Set: func(dst reflect.Value, v spec.ValueSpec) { dst.Field(0).SetInt(v.I) },
 		Abs: func(v reflect.Value) spec.AbsVal { return spec.AbsVal{K: "long", I: v.Field(0).Int()} },
+	}
+	avro.Register(gcPtrType, func(s avro.Schema, typ reflect.Type, omit bool) (avro.Codec, error) {
+		if s.Type != "long" {
+			return nil, fmt.Errorf("GCPtr needs a long schema, not %s", s.Type)
+		}
+		return gcPtrCodec{}, nil
+	})
+	avro.RegisterSchema(gcPtrType, avro.Schema{Type: "long"})
+	spec.Custom["gcptr"] = &spec.CustomKind{
+		Type: gcPtrType, Schema: ref.Prim("long"), Base: "int64",
+		Set: func(dst reflect.Value, v spec.ValueSpec) { x := v.I; dst.Field(0).Set(reflect.ValueOf(&x)) },
+		Abs: func(v reflect.Value) spec.AbsVal {
+			if v.Field(0).IsNil() {
+				return spec.AbsVal{K: "long"}
+			}
+			return spec.AbsVal{K: "long", I: v.Field(0).Elem().Int()}
+		},
 	}
 	registerIso("c11", runC11InWorker)
 	registerReplay("c11", func(c c11Case) error {
@@ -212,9 +259,18 @@ func c11Interesting(ts spec.TypeSpec) bool {
 
 func drawC11(t *rapid.T) c11Case {
 	var c c11Case
-	leaves := []string{"gcpoint", "gcpoint", "int64", "string", "bytes", "float64", "int16", "time", "nullString", "nullInt", "bool"}
+	leaves := []string{"gcpoint", "gcpoint", "gcptr", "gcptr", "int64", "string", "bytes", "float64", "int16", "time", "nullString", "nullInt", "bool"}
 	o := gen.TypeOpts{MaxDepth: 4, MaxFields: 4, Leaves: leaves, ShapeBoost: true}
 	c.Enc.Type = gen.StructType(t, o, 1)
+	if gen.Uniform(t, "sameSizeTypes", 4) == 0 {
+		// pointers to different types of the same size and pointer span (24 bytes)
+		// in one record: a bank that files allocations by size alone mixes their layouts
+		pt := spec.FieldSpec{Go: "PT", JSON: "pt", T: spec.Ptr(spec.T("time"))}
+		ps := spec.FieldSpec{Go: "PS", JSON: "ps", T: spec.Ptr(spec.Struct(spec.FieldSpec{Go: "Name", T: spec.T("string")}, spec.FieldSpec{Go: "Score", T: spec.Ptr(spec.T("float64"))}))}
+		pb := spec.FieldSpec{Go: "PB", JSON: "pb", T: spec.Ptr(spec.Struct(spec.FieldSpec{Go: "B", T: spec.T("bytes")}))}
+		extra := [][]spec.FieldSpec{{pt, ps}, {ps, pt}, {pt, pb, ps}, {pb, pt}}[gen.Uniform(t, "sameSizeOrder", 4)]
+		c.Enc.Type.Fields = append(c.Enc.Type.Fields, extra...)
+	}
 	c.Enc.GoType = c.Enc.Type.GoString()
 	n := gen.UniformRange(t, "nrecords", 1, 4)
 	c.Enc.Records = gen.Records(t, c.Enc.Type, n, gen.ValueOpts{MaxElems: 3})
